@@ -144,6 +144,7 @@ def run(ctx):
     search_loop(ctx, setup, action='append')
 
     check_feasibility(ctx, classes)
+    check_restart_point(ctx, methods)
 
     # ---- estimate stores what the inner loop returned ----------------------------------------------
     md = methods.get('mirror_descent')
@@ -254,3 +255,84 @@ def check_feasibility(ctx, classes):
                '%s.primal_feasibility must return the plain mean of the L1 gaps in records (LocalInference stops its consistency sweeps '
                'when it drops below the fixed threshold 1.0), 0 when there are no pairs; returns %s' % (cname, shown),
                construct='result of %s.primal_feasibility' % cname)
+
+
+INPLACE_DUNDER = {ast.Add: '__iadd__', ast.Sub: '__isub__', ast.Mult: '__imul__', ast.Div: '__itruediv__', ast.MatMult: '__imatmul__',
+                  ast.BitOr: '__ior__', ast.BitAnd: '__iand__'}
+MUTATING_METHODS = {'combine', 'update', 'pop', 'popitem', 'clear', 'setdefault', '__setitem__', '__delitem__'}
+
+
+def check_restart_point(ctx, methods):
+    """The line search restarts from a saved parameter vector (`model.potentials = X; return self.<same>(alpha/2, ...)`).
+    X must still be the vector it was when saved: no in-place operation may reach it through any alias (may-alias dataflow over
+    plain copies).  `n op= v` is in place exactly when the parameter-vector class defines the in-place operator."""
+    from ..absint import Structured
+    repo = ctx.repo
+    cands = []
+    for name, fi in methods.items():
+        for r in ast.walk(fi.node):
+            if isinstance(r, ast.Return) and isinstance(r.value, ast.Call) and U(r.value.func) == 'self.' + name:
+                par = getattr(r, '_parent', None)
+                blk = [b for b in (getattr(par, 'body', []), getattr(par, 'orelse', [])) if r in b]
+                for st in (blk[0] if blk else []):
+                    if isinstance(st, ast.Assign) and isinstance(st.targets[0], ast.Attribute) and st.targets[0].attr == 'potentials' \
+                            and isinstance(st.value, ast.Name):
+                        cands.append((fi, st, st.value.id))
+    if not cands:
+        raise AnalysisError('LocalInference: restart of the line search (`model.potentials = X; return self.<same method>(...)`) not found')
+    cv = repo.methods('src/mbi/clique_vector.py', 'CliqueVector')
+    for fi, store, X in cands:
+        ctx.analysed(fi)
+        sites = []
+
+        class Alias(Structured):
+            def copy(self, st): return set(st)
+            def join(self, a, b): return a | b
+            def unsupported(self, st, stmt): return st
+
+            def on_assign(self, st, s):
+                if s.value is None:
+                    return st
+                targets = s.targets if isinstance(s, ast.Assign) else [s.target]
+                for t in targets:
+                    if isinstance(t, ast.Name):
+                        if t.id == X:
+                            st.clear()
+                            st.add(X)
+                        elif isinstance(s.value, ast.Name) and s.value.id in st:
+                            st.add(t.id)
+                        else:
+                            st.discard(t.id)
+                    elif isinstance(t, (ast.Tuple, ast.List)):
+                        for n in ast.walk(t):
+                            if isinstance(n, ast.Name):
+                                st.discard(n.id)
+                    elif isinstance(t, ast.Subscript) and isinstance(t.value, ast.Name) and t.value.id in st:
+                        sites.append((s, 'element store through `%s`' % t.value.id, False))
+                return st
+
+            def on_augassign(self, st, s):
+                t = s.target
+                if isinstance(t, ast.Name) and t.id in st:
+                    d = INPLACE_DUNDER.get(type(s.op))
+                    inplace = d is not None and d in cv
+                    sites.append((s, '`%s` may be the saved restart point `%s`; CliqueVector %s %s' %
+                                  (t.id, X, 'defines' if inplace else 'does not define', d), not inplace))
+                    if not inplace:
+                        st.discard(t.id)
+                elif isinstance(t, ast.Subscript) and isinstance(t.value, ast.Name) and t.value.id in st:
+                    sites.append((s, 'element update through `%s`' % t.value.id, False))
+                return st
+
+            def on_expr(self, st, e, s):
+                for c in ([e] if isinstance(e, ast.Call) else []):
+                    f = c.func
+                    if isinstance(f, ast.Attribute) and isinstance(f.value, ast.Name) and f.value.id in st and f.attr in MUTATING_METHODS:
+                        sites.append((s, 'mutating method `.%s` on `%s`' % (f.attr, f.value.id), False))
+                return st
+        Alias().exits(fi.body, set())
+        for s_, why, ok in sites:
+            ctx.ob('restart-point', fi, s_, ok, 'the vector restored at a restart (`%s`) must not be modified in place: %s' % (U(store), why))
+        ctx.ob('restart-point', fi, store, all(ok for _, _, ok in sites),
+               'the line search restarts from `%s`, which no in-place operation reaches (%d candidate site(s) examined)' % (X, len(sites)),
+               construct='restart point of ' + fi.name)
